@@ -23,8 +23,11 @@ def norm_content(c: dict) -> dict:
     return c
 
 
+FN_OVERRIDE: dict = {}   # FnLib name -> python function, set by a replayer that wants another rendering
+
+
 def _fn(name: str):
-    return fnlib.FNS[name]
+    return FN_OVERRIDE.get(name) or fnlib.FNS[name]
 
 
 def coef(co: dict, named_ok: bool = True):
